@@ -72,7 +72,10 @@ def countType (t : Str) (h : List HEvent) : Nat := (h.filter (fun e => e.type = 
 was started more often than it was entered -/
 def fanRetried (h : List HEvent) : Bool :=
   decide (countType (S "ParallelStateStarted") h > countType (S "ParallelStateEntered") h) ||
-  decide (countType (S "MapStateStarted") h > countType (S "MapStateEntered") h)
+  decide (countType (S "MapStateStarted") h > countType (S "MapStateEntered") h) ||
+  -- (a nested fan-out entered but not yet started when the attempt failed compensates the counts above: any task
+  -- failure or time-out in the history may have failed a fan-out attempt that its Retry then re-ran, cutting siblings short)
+  h.any (fun e => endsWith e.type (S "Failed") || endsWith e.type (S "TimedOut"))
 
 def balancedIfClean (h : List HEvent) : Bool :=
   if endsSucceeded h && !(h.any (fun e => isFanFailureType e.type)) && !fanRetried h then
